@@ -158,6 +158,29 @@ pub fn apply_op(op: &Op, top: bool) {
                 }
                 6 => lib(|| Rc::from(node)),
                 4 => lib(|| std::pin::Pin::into_inner(Rc::pin(node))),
+                3 if wd.cfg.default_ctor > 0 => {
+                    // Rc::default(): user code (Default::default) runs inside the
+                    // constructor; optionally it panics on the first attempt
+                    // (the prepared value is not used: Default::default builds its own;
+                    // forgotten, not dropped, since it was never an object)
+                    std::mem::forget(node);
+                    label(lab::DEFAULT_CTOR);
+                    if wd.cfg.default_ctor == 2 && top {
+                        crate::world::NODE_STAGE.with(|s| *s.borrow_mut() = Some((id, d.clone(), true)));
+                        let r = catch_unwind(AssertUnwindSafe(|| lib(Rc::<Node>::default)));
+                        match r {
+                            Ok(_) => violate(View::Internal, "staged panic did not fire"),
+                            Err(e) => {
+                                if !e.is::<Injected>() {
+                                    std::panic::resume_unwind(e);
+                                }
+                                std::mem::forget(e);
+                            }
+                        }
+                    }
+                    crate::world::NODE_STAGE.with(|s| *s.borrow_mut() = Some((id, d.clone(), false)));
+                    lib(Rc::<Node>::default)
+                }
                 7 => lib(|| {
                     let mut u = Rc::<Node>::new_uninit();
                     unsafe {
@@ -574,6 +597,27 @@ pub fn apply_op(op: &Op, top: bool) {
             wd.model.borrow_mut().wroots.push(t);
             wd.wroots.borrow_mut().push(LoggedWeak::new(c, t));
         }
+        Op::WeakCloneFrom { dst, src } => {
+            let n = wd.model.borrow().wroots.len();
+            let (Some(i), Some(j)) = (pick(*dst, n), pick(*src, n)) else { return noop() };
+            if i == j {
+                return noop();
+            }
+            let t = wd.model.borrow().wroots[j];
+            {
+                let mut ws = wd.wroots.borrow_mut();
+                let srcp: *const Weak<Node> = &*ws[j].w;
+                let prev = set_phase(Phase::WeakCall);
+                {
+                    let _t = arena::track_on();
+                    let d: &mut Weak<Node> = &mut ws[i].w;
+                    d.clone_from(unsafe { &*srcp });
+                }
+                shared().phase = prev;
+                ws[i].target = t;
+            }
+            wd.model.borrow_mut().wroots[i] = t;
+        }
         Op::DropWeak(sel) => {
             let n = wd.model.borrow().wroots.len();
             let Some(i) = pick(*sel, n) else { return noop() };
@@ -721,6 +765,32 @@ pub fn adopt_upgrade_result(r: Option<Rc<Node>>, t: Oid) {
 }
 
 // ---- destructor scripts --------------------------------------------------------
+
+/// The payload's `Clone`, called by `make_mut` on a shared object, re-enters
+/// the API: the non-consuming top-level ops of the value's action script.
+pub fn run_clone_actions(node: &Node) {
+    let wd = w();
+    wd.dact_depth.set(wd.dact_depth.get() + 1);
+    struct D;
+    impl Drop for D {
+        fn drop(&mut self) {
+            let wd = w();
+            wd.dact_depth.set(wd.dact_depth.get() - 1);
+        }
+    }
+    let _d = D;
+    for d in node.dscript.iter() {
+        if let DAct::Do(op) = d {
+            match **op {
+                Op::TryUnwrap(_) | Op::MakeMut(_) | Op::GetMut(_) | Op::IntoRaw(_) | Op::FromRaw(_) | Op::IncStrong(_) | Op::DecStrong(_) | Op::DropLoose(_) | Op::WeakIntoRaw(_) | Op::WeakFromRaw(_) | Op::Probe => {}
+                _ => {
+                    label(lab::CLONE_REENTRANT);
+                    apply_op(op, false);
+                }
+            }
+        }
+    }
+}
 
 pub fn run_dacts(node: &mut Node, ds: &[DAct]) {
     let wd = w();
